@@ -64,6 +64,44 @@ struct CfgRotPeriodic : CfgCommon {
     template <class PK> using TopAlgoTsm = TbfAlgorithmPeriodicTopTreeTsm<Real, PK, Mult, Loc, Space>;
 };
 
+struct CfgUnifPeriodic : CfgCommon {
+    using Real = double;
+    using Space = TbfDefaultSpaceIndexTypePeriodic<double>;
+    static constexpr long NbData = 4;
+    static constexpr bool periodic = true;
+    static constexpr bool canRebuild = true;
+    static constexpr bool hasCounters = false;
+    using Rhs = double;
+    static constexpr long NbRhs = 4;
+    static constexpr unsigned int ORDER = 3;
+    static constexpr long VectorSize = TensorTraits<ORDER>::nnodes;
+    static constexpr long TransformedVectorSize = (2 * ORDER - 1) * (2 * ORDER - 1) * (2 * ORDER - 1);
+    struct MultipoleData { Real multipole_exp[VectorSize]; std::complex<Real> transformed_multipole_exp[TransformedVectorSize]; };
+    struct LocalData { Real local_exp[VectorSize]; std::complex<Real> transformed_local_exp[TransformedVectorSize]; };
+    using Inner = FUnifKernel<Real, FInterpMatrixKernelR<Real>, ORDER, 3, Space>;
+    using Mult = MultipoleData;
+    using Loc = LocalData;
+    static constexpr bool kernelCtorOnly = true;
+    template <class PK, class Conf> static PK make(const Conf& c) { static const FInterpMatrixKernelR<Real> mk; return PK(Inner(c, &mk)); }
+    // no top-tree executor here: it would need a kernel built for the extended configuration (matrix kernel argument)
+};
+// single precision rotation kernel (the library ships float tests of its numerical kernels)
+struct CfgRotFloat : CfgCommon {
+    using Real = float;
+    using Space = TbfDefaultSpaceIndexType<float>;
+    static constexpr long NbData = 4;
+    static constexpr bool periodic = false;
+    static constexpr bool canRebuild = true;
+    static constexpr bool hasCounters = false;
+    using Rhs = float;
+    static constexpr long NbRhs = 4;
+    static constexpr int P = 4;
+    static constexpr long VectorSize = ((P + 2) * (P + 1)) / 2;
+    using Inner = FRotationKernel<Real, P>;
+    using Mult = std::array<std::complex<Real>, VectorSize>;
+    using Loc = std::array<std::complex<Real>, VectorSize>;
+};
+
 #define REG(key, Cfg, Ex) static WorldRegistrar reg_##Cfg##_##Ex(key, [](const Scenario& s) { return std::unique_ptr<IWorld>(new World<Cfg, Ex>(s)); })
 REG("morton/rot/seq", CfgRot, EX_SEQ);
 REG("morton/rot/omp", CfgRot, EX_OMP);
@@ -73,6 +111,14 @@ REG("periodic/rot/seq", CfgRotPeriodic, EX_SEQ);
 REG("periodic/rot/omp", CfgRotPeriodic, EX_OMP);
 REG("periodic/rot/seqtsm", CfgRotPeriodic, EX_SEQ_TSM);
 REG("periodic/rot/omptsm", CfgRotPeriodic, EX_OMP_TSM);
+REG("periodic/unif/seq", CfgUnifPeriodic, EX_SEQ);
+REG("periodic/unif/omp", CfgUnifPeriodic, EX_OMP);
+REG("morton/rot_float/seq", CfgRotFloat, EX_SEQ);
+REG("morton/rot_float/omp", CfgRotFloat, EX_OMP);
+REG("morton/rot_float/seqtsm", CfgRotFloat, EX_SEQ_TSM);
+REG("morton/rot_float/omptsm", CfgRotFloat, EX_OMP_TSM);
+REG("morton/unif/seqtsm", CfgUnif, EX_SEQ_TSM);
+REG("morton/unif/omptsm", CfgUnif, EX_OMP_TSM);
 REG("morton/unif/seq", CfgUnif, EX_SEQ);
 REG("morton/unif/omp", CfgUnif, EX_OMP);
 
